@@ -474,7 +474,121 @@ def host_key_constraints(s):
     return out
 
 
-ANALYSES = {'C07': an_C07, 'C09': an_C09, 'C10': an_C10, 'C18': an_C18}
+def toks_equal_under(pc, ta, tb):
+    """token sequences equal for all values satisfying pc?  (True/False, detail)"""
+    ta, tb = textform.merge_lits(ta), textform.merge_lits(tb)
+    if len(ta) != len(tb):
+        return False, 'different token structure: %s / %s' % (textform.toks_repr(ta)[:100], textform.toks_repr(tb)[:100])
+    for x, y in zip(ta, tb):
+        if x[0] != y[0]:
+            return False, 'token kinds differ: %s / %s' % (x[0], y[0])
+        if x[0] == 'lit':
+            if x[1] != y[1]:
+                return False, 'literal text differs: %r / %r' % (x[1][:60], y[1][:60])
+        elif x[0] in ('dec', 'hex', 'hexraw', 'atom', 'hexpad'):
+            if not x[1].eq(y[1]):
+                v = solve.prove(pc, x[1] == y[1], 5000)
+                if v.status != 'proved':
+                    return False, 'value differs: %s / %s' % (str(x[1])[:60], str(y[1])[:60])
+            if x[0] == 'hexpad' and x[2] != y[2]:
+                return False, 'pad width differs'
+        elif x[0] in ('ename', 'flagname'):
+            if x[1] is not y[1] and x[1].name != y[1].name:
+                return False, 'enum class differs'
+            if not x[2].eq(y[2]):
+                v = solve.prove(pc, x[2] == y[2], 5000)
+                if v.status != 'proved':
+                    return False, 'enum value differs'
+        elif x[0] == 'join':
+            if x[1] != y[1] or len(x[2]) != len(y[2]):
+                return False, 'flag list differs'
+            for (g1, s1), (g2, s2) in zip(x[2], y[2]):
+                z1 = z3.BoolVal(True) if g1 is True else g1
+                z2 = z3.BoolVal(True) if g2 is True else g2
+                if not z1.eq(z2):
+                    v = solve.prove(pc, z1 == z2, 5000)
+                    if v.status != 'proved':
+                        return False, 'flag guard differs'
+                ok, d = toks_equal_under(pc, list(s1.toks), list(s2.toks))
+                if not ok:
+                    return False, d
+        elif x[0] in ('padopen',):
+            if x[1:] != y[1:]:
+                return False, 'padding differs'
+        elif x[0] in ('padclose', 'loweropen', 'lowerclose'):
+            pass
+        else:
+            if repr(x) != repr(y):
+                return False, 'opaque token differs'
+    return True, ''
+
+
+def an_C17_twin(mod, name, paths, fq, explore):
+    """X_nocancel renders exactly like X apart from the suffix, for all START/END tuples."""
+    if not name.endswith('_nocancel'):
+        return []
+    base = name[:-len('_nocancel')]
+    ob = 'C17/%s/twin.same-rendering' % name
+    t0 = time.time()
+    bpaths = explore(base)
+    if bpaths is None:
+        return [rec(ob, 'refuted', 'table', 0, fq, 'base call %s is not decoded' % base,
+                    viol={'request': {'kind': 'reachable', 'name': base}, 'what': '%s is decoded but %s is not registered' % (name, base),
+                          'solver_output': 'table lookup: %s absent from the decoder tables' % base})]
+    bad = None
+    badpair = None
+    compared = 0
+    for a in bpaths:
+        for b in paths:
+            joint = list(a.pc) + list(b.pc)
+            # window/parser symbols have the same names in both runs: the two runs share their input
+            if not feasible(joint):
+                continue
+            compared += 1
+            if a.outcome != b.outcome:
+                bad = 'one raises (%s), the other returns' % (a.exc or b.exc)
+                badpair = (a, b, [])
+                break
+            if a.outcome != 'return':
+                continue
+            for ca, ta in textform.flatten(a.text):
+                for cb, tb in textform.flatten(b.text):
+                    jc = joint + ca + cb
+                    if (ca or cb) and not feasible(jc):
+                        continue
+                    tb2 = list(tb)
+                    m = re.match(r'(\w+)\(', ta[0][1]) if ta and ta[0][0] == 'lit' else None
+                    if m and tb2 and tb2[0][0] == 'lit' and tb2[0][1].startswith(m.group(1) + '_nocancel('):
+                        tb2[0] = ('lit', tb2[0][1].replace('_nocancel', '', 1))
+                        ok, d = toks_equal_under(jc, ta, tb2)
+                    else:
+                        ok, d = False, 'call name of the twin is not <name>_nocancel: %s / %s' % (
+                            textform.toks_repr(ta)[:50], textform.toks_repr(tb)[:50])
+                    if not ok:
+                        bad = d
+                        badpair = (a, b, ca + cb)
+                        break
+                if bad:
+                    break
+            if bad:
+                break
+        if bad:
+            break
+    ms = (time.time() - t0) * 1000
+    if not bad and compared == 0:
+        return [rec(ob, 'engine-error', '', ms, fq, 'vacuous twin comparison: no jointly feasible pair of paths')]
+    if not bad:
+        return [rec(ob, 'proved', 'token structure + z3-5.1 (relational, shared symbolic input, %d path pairs)' % compared, ms, fq)]
+    a, b, conds = badpair
+    viol = {'request': None, 'what': '%s and %s render differently: %s' % (base, name, bad), 'solver_output': bad}
+    req, model = decoders.concretize(b, list(a.pc) + conds)
+    if req is not None:
+        ra = dict(req, name=base)
+        viol['request'] = {'kind': 'decoder_pair', 'a': ra, 'b': req, 'mode': 'twin'}
+    return [rec(ob, 'refuted', 'token structure + z3-5.1', ms, fq, bad, viol=viol)]
+
+
+ANALYSES = {'C07': an_C07, 'C09': an_C09, 'C10': an_C10, 'C18': an_C18, 'C17': an_C17_twin}
 
 
 # =============================================================================== pool
@@ -491,7 +605,15 @@ def _worker(job):
             t0 = time.time()
             try:
                 paths = decoders.explore_decoder(sess, name, h)
-                recs = ANALYSES[pid](mod, name, paths, fq)
+                if pid == 'C17':
+                    def explore(other, mod=mod, name=name):
+                        for m2, h2 in tabs.get(other, []):
+                            # same window as the twin (its first event carries the twin's code)
+                            return decoders.explore_decoder(sess, other, h2, window_name=name)
+                        return None
+                    recs = ANALYSES[pid](mod, name, paths, fq, explore)
+                else:
+                    recs = ANALYSES[pid](mod, name, paths, fq)
                 for r in recs:
                     r['npaths'] = len(paths)
                 out.extend(recs)
